@@ -30,6 +30,8 @@ TABLE = {
     'boom': methods.STD_TABLE['boom'],
     'boomt': methods.STD_TABLE['boomt'],
     'é': dict(kind='ret', params=[('a', 0)], result=const7),
+    'perrz': dict(kind='perr', params=[], code=0, message='zero', cls='base'),
+    'perre': dict(kind='perr', params=[], code=17, message='', data=None, cls='base'),
 }
 # handled by register_internal_failures(), known to the reference as 'internal'
 INTERNAL = {'vboom': dict(kind='internal', params=[]), 'valboom': dict(kind='internal', params=[]), 'pmax': dict(kind='internal', params=[])}
@@ -49,9 +51,9 @@ def g1(ctx):
                     yield dict(g='G1', disp=disp, mbs=mbs, text=''.join(toks))
 
 
-JSONRPC = ['__absent__', '2.0', '1.0', 2.0, 2, None]
+JSONRPC = ['__absent__', '2.0', '1.0', 2.0, 2, None, [], {}, ['2.0'], True]
 IDS = ['__absent__', None, 1, 0, -1, 2 ** 64, 'a', '', '1', 1.5, 1.0, True, False, [], {}]
-METHODS = ['__absent__', 'ok', 'add', 'nop', 'perr', 'perr0', 'boom', 'boomt', 'nope', '', 1, None, [], {}, 'vboom', 'valboom', 'pmax']
+METHODS = ['__absent__', 'ok', 'add', 'nop', 'perr', 'perr0', 'boom', 'boomt', 'nope', '', 1, None, [], {}, 'vboom', 'valboom', 'pmax', 'perrz', 'perre']
 PARAMS = ['__absent__', [], {}, [1], {'a': 1}, [1, 2, 3], {'zz': 1}, None, 1, 'x', True]
 
 
@@ -83,7 +85,7 @@ ARRAY_ALPHABET = [
     call('boom'), call('nope', 5), call('add', 6, [1]),
     1, {}, [], {'jsonrpc': '2.0', 'method': 1, 'id': 7},
     call('ok', 0), call('boom', ''), call('nop', 0), call('ok', 1), call('ok', None),
-    call('vboom', 8), call('valboom'), call('pmax', 9, [1, 2]),
+    call('vboom', 8), call('valboom'), call('pmax', 9, [1, 2]), call('perrz', 10), call('perre', 11),
 ]
 
 
